@@ -38,6 +38,7 @@ CHECKS = {
     "C15": ("kv.checks.values", "C15"),
     "C17": ("kv.checks.records", "C17"),
     "C18": ("kv.checks.records", "C18"),
+    "C19": ("kv.checks.state", "C19"),
     "C14": ("kv.checks.structure", "C14"),
 }
 
